@@ -33,7 +33,7 @@ Proof. exact C10_pure.C10_unforced_safe. Qed.
 Print Assumptions C10_unforced_safe.
 
 (* ---- the concurrent half ---------------------------------------------------------------------------------------- *)
-From FL Require Import Engine.Model Engine.Spec Engine.E2Base Engine.E2Main Engine.E2Variants.
+From FL Require Import Engine.Model Engine.Spec Engine.E2Base Engine.E2Step Engine.E2Main Engine.E2Variants Engine.E2ReadFail.
 
 (* at most one entry on disk reverts a given transaction, however many revert requests race *)
 Theorem C10_once : forall s, reachable s -> revert_once (persisted s).
@@ -130,3 +130,69 @@ Example C10_cancel_example :
     map (fun e => (e_owner e, e_reverts e)) (persisted s) = [(0, None); (1, None); (2, None); (4, Some 1)] /\
     v_revs s = [].
 Proof. exact e2_cancel_rev_then_retry. Qed.
+
+(* ---- transient store read failures (AResumeReadFail) ----------------------------------------------------------------- *)
+(* a revert request holds its revert reservation at every pc at which a read can fail ([rev_hold]).  At [PRevTaken] the
+   [GetTransaction] read of RevertTransaction fails: the reservation is all it holds, and it gives it back; at the later
+   pcs (key lookup, balances under the locks) the failing request gives back the revert reservation with whatever else
+   it holds.  Nothing is written: no revert entry is produced by the failing request. *)
+Theorem C10_read_failed_releases_revert : forall s t s', reachable s -> step s (AResumeReadFail t) = Some s' ->
+  exists th th', get_thread (threads s) t = Some th /\ get_thread (threads s') t = Some th' /\
+    persisted s' = persisted s /\ inflight s' = inflight s /\
+    ((exists err, t_resp th' = Some (RErr err)) ->
+       v_revs s' = (match rq_kind (t_req th) with KRevert => remove_nat (rq_revert (t_req th)) (v_revs s) | _ => v_revs s end)) /\
+    (t_resp th' = None -> v_revs s' = v_revs s).
+Proof. exact e2_read_failed_releases_rev. Qed.
+Print Assumptions C10_read_failed_releases_revert.
+
+(* sound in a reachable state: the step adds no entry; a failing revert held the reservation ITSELF, afterwards it is
+   free and no request holds it; when the request was past its revert lookup with "not reverted" ([rev_miss]: every
+   enabled pc but [PRevTaken]) no entry on disk or in flight reverts the target -- the transaction can still be
+   reverted, once.  At [PRevTaken] the lookup has not been made (the target may already be reverted on disk). *)
+Theorem C10_read_failed_revert_fresh : forall s t s', reachable s -> step s (AResumeReadFail t) = Some s' ->
+  exists th th', get_thread (threads s) t = Some th /\ get_thread (threads s') t = Some th' /\
+    persisted s' ++ inflight s' = persisted s ++ inflight s /\
+    ((exists err, t_resp th' = Some (RErr err)) -> rq_kind (t_req th) = KRevert ->
+        In (rq_revert (t_req th)) (v_revs s) /\ ~ In (rq_revert (t_req th)) (v_revs s') /\
+        (forall t2 th2, get_thread (threads s') t2 = Some th2 -> rq_kind (t_req th2) = KRevert ->
+                        rq_revert (t_req th2) = rq_revert (t_req th) -> rev_hold (t_pc th2) = false) /\
+        (rev_miss (t_pc th) = true ->
+           forall x, In x (persisted s' ++ inflight s') -> e_reverts x <> Some (rq_revert (t_req th)))).
+Proof. exact e2_read_failed_rev_fresh. Qed.
+Print Assumptions C10_read_failed_revert_fresh.
+
+(* nobody else's revert reservation is touched (the statement for the three tables) *)
+Theorem C10_read_fail_other_reverts_untouched : forall s t s', reachable s -> step s (AResumeReadFail t) = Some s' ->
+  exists th, get_thread (threads s) t = Some th /\
+    (forall k, (In k (v_iks s') -> In k (v_iks s)) /\ (In k (v_iks s) -> k <> rq_ik (t_req th) -> In k (v_iks s'))) /\
+    (forall k, (In k (v_refs s') -> In k (v_refs s)) /\ (In k (v_refs s) -> k <> rq_ref (t_req th) -> In k (v_refs s'))) /\
+    (forall id, (In id (v_revs s') -> In id (v_revs s)) /\
+                (In id (v_revs s) -> ~ (rq_kind (t_req th) = KRevert /\ id = rq_revert (t_req th)) -> In id (v_revs s'))) /\
+    (forall t2 th2, t2 <> t -> get_thread (threads s) t2 = Some th2 ->
+       (rq_ik (t_req th2) <> 0%N -> ik_hold (t_pc th2) = true -> In (rq_ik (t_req th2)) (v_iks s')) /\
+       (is_tx_kind (rq_kind (t_req th2)) = true -> rq_ref (t_req th2) <> 0%N -> ref_hold (t_pc th2) = true ->
+          In (rq_ref (t_req th2)) (v_refs s')) /\
+       (rq_kind (t_req th2) = KRevert -> rev_hold (t_pc th2) = true -> In (rq_revert (t_req th2)) (v_revs s'))).
+Proof. exact e2_read_fail_others_untouched. Qed.
+Print Assumptions C10_read_fail_other_reverts_untouched.
+
+(* non-vacuity: transaction 1 is on disk; the [GetTransaction] read of revert request 3 fails at [PRevTaken]:
+   [RErr EStoreRead], reservation table empty, disk unchanged; the NEW revert request 4 of transaction 1 commits: exactly
+   one revert entry [(owner 4, Some 1)]; the read of a further revert request 5 fails too: still exactly one *)
+Example C10_read_failure_retry :
+  exists s0 th0 s1 th3 s th4 s5 th5,
+    run init (e2_rf_fund ++ e2_rf_tx1 ++ [AStart 3 e2_rev1]) = Some s0 /\
+    get_thread (threads s0) 3 = Some th0 /\ t_pc th0 = PRevTaken /\ v_revs s0 = [1] /\
+    run init (e2_rf_fund ++ e2_rf_tx1 ++ [AStart 3 e2_rev1; AResumeReadFail 3]) = Some s1 /\
+    get_thread (threads s1) 3 = Some th3 /\ t_resp th3 = Some (RErr EStoreRead) /\ t_entry th3 = None /\
+    v_revs s1 = [] /\ persisted s1 = persisted s0 /\ v_pending s1 = [] /\ v_batch s1 = None /\
+    run init (e2_rf_fund ++ e2_rf_tx1 ++ [AStart 3 e2_rev1; AResumeReadFail 3] ++ e2_rf_rev_full 4) = Some s /\
+    get_thread (threads s) 4 = Some th4 /\ t_resp th4 = Some (ROk (Some 2)) /\
+    map (fun e => (e_owner e, e_reverts e)) (persisted s) = [(0, None); (1, None); (4, Some 1)] /\
+    count_where (fun e => match e_reverts e with Some x => Nat.eqb x 1 | None => false end) (persisted s) = 1 /\
+    v_revs s = [] /\
+    run init (e2_rf_fund ++ e2_rf_tx1 ++ [AStart 3 e2_rev1; AResumeReadFail 3] ++ e2_rf_rev_full 4 ++
+              [AStart 5 e2_rev1; AResumeReadFail 5]) = Some s5 /\
+    get_thread (threads s5) 5 = Some th5 /\ t_resp th5 = Some (RErr EStoreRead) /\ persisted s5 = persisted s /\
+    v_revs s5 = [].
+Proof. exact e2_read_failure_revert. Qed.
